@@ -33,6 +33,9 @@ def immValues (bits : Nat) : List Nat :=
 
 def fewImm (bits : Nat) : List Nat := if bits == 8 then [5] else [5]
 
+/-- immediates stored through a memory operand (C02): a small positive and a small negative value of the operand's width -/
+def memImm (bits : Nat) : List Nat := [5, 2 ^ bits - 5]
+
 def dispValues : List Int := [0, 1, 0x7f, 0x80, 0xff, 0x100, -1, -0x80, -0x81, -0x100, 0x12345678, 0x7fffffff, -0x80000000]
 def dispFew : List Int := [0, 8, -8, 0x80, -0x81]
 
@@ -115,7 +118,7 @@ def famC02 (level : Nat) : List Item :=
     let rep := en.mn == "mov" && en.opc == 0x8B || en.mn == "paddb" || en.mn == "vaddpd" || en.mn == "lea"
     let mems0 := if level ≥ 2 && rep then memsFull else if level ≥ 1 || rep then memsKey else memsMid
     let mems := fun sz => mems0 sz ++ memsSwap sz ++ memsLoneSp sz
-    let f : Fill := { mems, imms := fewImm, rels8 := [], rels32 := [], regForm := false, memForm := true }
+    let f : Fill := { mems, imms := memImm, rels8 := [], rels32 := [], regForm := false, memForm := true }
     let ds := fewRegs (enumEnc f en)
     items {} ds ++ (if rep || level ≥ 1 then items { scaleFirst := true, kwAlways := true, num := .dec } ds else [])
 
